@@ -16,7 +16,7 @@ name space (the trusted contract, DESIGN §4):
   per thread, a ghost event log.  `exec : G → Action → G` is total and executable.
 
 Keys are abstract: `SemKey.user n` / `SemKey.lock k` / shm key `k` stand for the 52-bit truncated
-SHA-1 platform keys (injectivity is an assumption).  System V variants are not modelled.
+SHA-1 platform keys (injectivity is an assumption).  The System V variants have their own model: PV.Model.IPCSysV.
 -/
 namespace PV.IPC
 open PV.Generated.IPC
